@@ -40,7 +40,7 @@ def gen(rng, tier):
             steps.append({"kind": kind, "fn": rng.choice(FN_MAP), "err": rng.choice(ERR_MAP)})
         else:
             steps.append({"kind": kind, "fn": rng.choice(FN_FLAT), "err": rng.choice(ERR_FLAT)})
-    spec = {"form": form, "steps": steps, "input": rng.choice(["val", "val", "val", "exc", "exc", "exc-falsy", "val-future"]),
+    spec = {"form": form, "steps": steps, "input": rng.choice(["val", "val", "val", "exc", "exc", "exc-falsy", "exc-cancelled", "val-future"]),
             "input_at": rng.choice([None, 0, 0.05, 0.1]) if form == "f" else rng.choice([0, 0.05]),
             "base": rng.choice(["sync", "pool"]), "inner_at": rng.choice([0.02, 0.1]),
             "cancel_at": rng.choice([None, None, None, 0, 0.05, 0.1, "fn-running", "fn-running"]), "settle": 5.0,
@@ -207,7 +207,7 @@ def run(spec, env):
         if spec["input"] == "val-future":
             return in_value()
         if spec["input"] != "val":
-            raise env.exc(("in",), "FalsyErr" if spec["input"] == "exc-falsy" else "ScriptedError")
+            raise env.exc(("in",), {"exc-falsy": "FalsyErr", "exc-cancelled": "ErrCancelled"}.get(spec["input"], "ScriptedError"))
         return ("in",)
 
     raw = None
@@ -227,7 +227,7 @@ def run(spec, env):
         if spec["input_at"] is None:
             raw.set_running_or_notify_cancel()
             if spec["input"] not in ("val", "val-future"):
-                raw.set_exception(env.exc(("in",), "FalsyErr" if spec["input"] == "exc-falsy" else "ScriptedError"))
+                raw.set_exception(env.exc(("in",), {"exc-falsy": "FalsyErr", "exc-cancelled": "ErrCancelled"}.get(spec["input"], "ScriptedError")))
             else:
                 raw.set_result(in_value())
         out = raw
@@ -253,7 +253,7 @@ def run(spec, env):
             try:
                 if raw.set_running_or_notify_cancel():
                     if spec["input"] not in ("val", "val-future"):
-                        raw.set_exception(env.exc(("in",), "FalsyErr" if spec["input"] == "exc-falsy" else "ScriptedError"))
+                        raw.set_exception(env.exc(("in",), {"exc-falsy": "FalsyErr", "exc-cancelled": "ErrCancelled"}.get(spec["input"], "ScriptedError")))
                     else:
                         raw.set_result(in_value())
             except Exception as e:
